@@ -18,6 +18,8 @@ import (
 	"fmt"
 	"net/netip"
 	"os"
+	"os/exec"
+	"path/filepath"
 	"strings"
 	"sync"
 
@@ -625,27 +627,28 @@ func record(rep *common.Report, r result, haveDriver bool) {
 func evalAll(all []Case, o *common.Options, rep *common.Report) {
 	var cases, roams []Case
 	for _, c := range all {
-		if c.Kind == "roam" {
+		if c.Kind == "roam" && os.Getenv("C05_ROAM_CHILD") == "" {
 			roams = append(roams, c)
 		} else {
 			cases = append(cases, c)
 		}
 	}
-	// relay-level scenarios use real sockets and a real relay: a few at a time
+	// relay-level scenarios run a real relay whose goroutines can panic (Go cannot recover another goroutine's
+	// panic): every scenario runs in a child process; a child that dies is the failing input.
 	for lo := 0; lo < len(roams); lo += 4 {
 		hi := min(lo+4, len(roams))
 		var wg sync.WaitGroup
-		rs := make([][]result, hi-lo)
+		rs := make([]roamChildResult, hi-lo)
 		for i := lo; i < hi; i++ {
 			wg.Add(1)
 			go func(i int) {
 				defer wg.Done()
-				rs[i-lo] = evalBatch(roams[i:i+1], o.Driver)
+				rs[i-lo] = runRoamChild(roams[i], o)
 			}(i)
 		}
 		wg.Wait()
-		for _, r := range rs {
-			record(rep, r[0], o.Driver != "")
+		for i, r := range rs {
+			mergeRoam(rep, roams[lo+i], r, o.Driver != "")
 		}
 	}
 	const batch = 150
@@ -721,3 +724,84 @@ func main() {
 }
 
 var _ = hex.EncodeToString
+
+// ---------- child processes for the relay-level scenarios ----------
+
+type roamChildResult struct {
+	rep  *common.Report
+	died string // non-empty: the child exited without a report (stderr tail)
+}
+
+func runRoamChild(c Case, o *common.Options) roamChildResult {
+	dir, err := os.MkdirTemp("", "c05roam")
+	if err != nil {
+		return roamChildResult{died: err.Error()}
+	}
+	defer os.RemoveAll(dir)
+	body, _ := json.Marshal(map[string]any{"case": c})
+	in, out := filepath.Join(dir, "case.json"), filepath.Join(dir, "rep.json")
+	if err := os.WriteFile(in, body, 0o644); err != nil {
+		return roamChildResult{died: err.Error()}
+	}
+	args := []string{"--tier", o.Tier, "--seed", fmt.Sprint(o.Seed), "--replay", in, "--out", out}
+	if o.Driver != "" {
+		args = append(args, "--driver", o.Driver)
+	}
+	cmd := exec.Command(os.Args[0], args...)
+	cmd.Env = append(os.Environ(), "C05_ROAM_CHILD=1")
+	var stderr bytes.Buffer
+	cmd.Stderr = &stderr
+	runErr := cmd.Run()
+	if b, err := os.ReadFile(out); err == nil {
+		var r common.Report
+		if json.Unmarshal(b, &r) == nil {
+			return roamChildResult{rep: &r}
+		}
+	}
+	tail := stderr.String()
+	// keep the head of the crash (panic message and the first frames), not the goroutine dump's tail
+	if i := strings.Index(tail, "panic:"); i >= 0 {
+		tail = tail[i:]
+	} else if i := strings.Index(tail, "fatal error:"); i >= 0 {
+		tail = tail[i:]
+	}
+	if len(tail) > 700 {
+		tail = tail[:700]
+	}
+	return roamChildResult{died: fmt.Sprintf("%v: %s", runErr, tail)}
+}
+
+func mergeRoam(rep *common.Report, c Case, r roamChildResult, haveDriver bool) {
+	rep.Count("roam " + c.S + " batch=" + c.Batch)
+	if r.rep == nil {
+		loop := "generic"
+		if c.Batch == "" {
+			loop = "mmsg"
+		}
+		rep.Case(sig(c), false)
+		rep.Fail(common.OracleFailure{Engine: "roam", Key: "roam:" + c.S + ":" + loop + ":relay-process-died", Case: c,
+			Detail: "the process running the relay died during this scenario (a panic in a relay goroutine cannot be recovered): " + r.died})
+		return
+	}
+	ch := r.rep
+	rep.Case(sig(c), ch.DistinctNontrivial > 0)
+	for k, v := range ch.Distribution {
+		if strings.HasPrefix(k, "roam:") {
+			rep.Distribution[k] += v
+		}
+	}
+	for _, d := range ch.Divergences {
+		d.Engine = "roam"
+		rep.Diverge(d)
+	}
+	for _, f := range ch.OracleFailures {
+		f.Engine = "roam"
+		rep.Fail(f)
+	}
+	for _, n := range ch.Notes {
+		rep.Note("%s", n)
+	}
+	if haveDriver {
+		rep.TracesValidated += ch.TracesValidated
+	}
+}
